@@ -263,6 +263,9 @@ pub struct SinkShared {
     /// Length of `bytes` after each write call (for crash-point enumeration).
     pub cuts: Vec<usize>,
     pub keep_cuts: bool,
+    /// `Some(n)`: only the first `n` bytes are durable (the sink commits on flush)
+    pub commit_on_flush: bool,
+    pub committed: usize,
 }
 
 pub struct MonSink {
@@ -356,8 +359,22 @@ impl Write for MonSink {
                 return Err(p.io_err());
             }
         }
-        self.shared.lock().unwrap().flushes += 1;
+        let mut g = self.shared.lock().unwrap();
+        g.flushes += 1;
+        g.committed = g.bytes.len();
         Ok(())
+    }
+}
+
+impl SinkShared {
+    /// The bytes a reader of the sink's destination would see: everything for an ordinary sink,
+    /// only what was flushed for a sink that commits on flush.
+    pub fn durable(&self) -> &[u8] {
+        if self.commit_on_flush {
+            &self.bytes[..self.committed]
+        } else {
+            &self.bytes
+        }
     }
 }
 
